@@ -463,7 +463,8 @@ static void episode(int nops, int maxpool)
 		} else if (c < 88) {
 			op_enum(1);
 		} else if (c < 92) {
-			reload_sequence();
+			if (!getenv("VH_NO_RELOAD"))
+				reload_sequence();
 		} else {
 			rand_query(1, 3);
 		}
